@@ -375,6 +375,32 @@ def accessors(prog, chk, names):
             chk.decide(okr, 'accessor-macro-range', U, fn, m, loc, msg +
                        (' - a wider range reads a neighbouring row/table, a narrower one rejects valid macros'),
                        why='guard equals the extent %s' % extm)
+            # no single macro is carved out of the range and served from somewhere else (another slot, a constant): the only macros with
+            # a branch of their own are the composed lines of LineEnergy (the doublets and KO / KP, property C10)
+            carved = sorted(int(x) for x in (iv.ne or ()))
+            allowed = set()
+            if fn == 'LineEnergy':
+                allowed = {names.line_value[n_] for n_ in names.line_value if names.is_doublet(n_)} | \
+                    {names.line_value[n_] for n_ in ('KO', 'KP') if n_ in names.line_value}
+            foreign = [v for v in carved if v not in allowed]
+            # the same, seen from the branch: a value path on which the macro is pinned to one single-line value must return that macro's own cell
+            for q in value_paths(it, paths):
+                if q is p:
+                    continue
+                qi = it.interval_of(Rat.sym(m), q)
+                if qi.lo is None or qi.lo != qi.hi:
+                    continue
+                c_ = int(qi.lo)
+                in_range = (0 <= c_ <= ext - 1) if xf == 'id' else (-ext <= c_ <= -1)
+                if not in_range or c_ in allowed:
+                    continue
+                own = Rat.sym('%s[%s][%d]' % (tbl, z, c_ if xf == 'id' else -c_ - 1))
+                if not q.ret.equals(own) and c_ not in foreign:
+                    foreign.append(c_)
+            chk.decide(not foreign, 'accessor-macro-range', U, fn, m + ' carve-outs', loc,
+                       'the macros %s are taken out of the table path and answered by a branch of their own: their records in the data file are no longer '
+                       'what the accessor returns' % [names.line_by_value.get(v, v) if xf != 'id' else v for v in foreign],
+                       why='every macro of the range is served from its own cell%s' % (' (composed lines excepted)' if allowed else ''))
         iv = it.interval_of(want, p)
         chk.decide(iv.lo == 0 and iv.los, 'accessor-positivity', U, fn, 'cell>0', loc,
                    'the value path does not require the cell to be strictly positive (found %s): a default/"no data" cell would be '
